@@ -443,6 +443,24 @@ def c_add_prefix(self: Converter, prefix: str, uri_prefix: str, prefix_synonyms:
         for r in old([r.model_copy(deep=True) for r in self.records])) else 1), native=True)
 
 
+@lemma("C05.add_record_then_expand", props=["C05"])
+def l_c05_add_then_expand(conv: Converter, record: Record, p: str, x: str):
+    """Over the contracts of add_record and expand: after a record that matches nothing is added, every prefix known
+    before expands exactly as before and the new record's names expand with its URI prefix (what a fresh converter does)."""
+    requires(WF(conv) and RecInv(record) and all(r is not record for r in conv.records))
+    requires(not any(matches2(record, r, True) for r in conv.records))
+    d = conv.delimiter
+    requires(first_occ(p, d))
+    was_known = known(conv, p)
+    before = conv.expand(p + d + x)
+    conv.add_record(record)
+    after = conv.expand(p + d + x)
+    if was_known:
+        assert after == before and after is not None
+    if p in P(record):
+        assert after == record.uri_prefix + x
+
+
 @lemma("C05.history_equals_fresh", props=["C05", "C01", "C02"],
        bounded_only="histories: the unbounded argument is the representation invariant WF preserved by add_record (contract above); this drives interleaved queries and mutations to expose state outside WF (caches)")
 def l_c05_history(conv: Converter, ops: list, probes: list):
